@@ -75,6 +75,42 @@ func runPosKeys(p *Prog, r *Report) {
 			}
 		}
 	}
+	// E2.filename-before-byte: byte offsets of two ranges are comparable only within one file:
+	// a comparator that orders by X.Start.Byte and also looks at X.Filename must decide the
+	// filename first.
+	for _, c := range collectComparators(p) {
+		if c.body == nil {
+			continue
+		}
+		info := c.fn.Info()
+		var firstByte, firstFile ast.Node
+		ast.Inspect(c.body, func(m ast.Node) bool {
+			sel, ok := m.(*ast.SelectorExpr)
+			if !ok {
+				return true
+			}
+			if sel.Sel.Name == "Filename" {
+				if tv := info.TypeOf(sel.X); tv != nil && isHclRange(tv) && firstFile == nil {
+					firstFile = sel
+				}
+			}
+			if sel.Sel.Name == "Byte" {
+				if tv := info.TypeOf(sel.X); tv != nil && isHclPos(tv) && firstByte == nil {
+					firstByte = sel
+				}
+			}
+			return true
+		})
+		if firstByte == nil || firstFile == nil {
+			continue
+		}
+		n++
+		if firstFile.Pos() < firstByte.Pos() {
+			r.Add("E2.filename-before-byte", c.name, "key order", p.Pos(c.pos), OK, "the file name is compared before the byte offset", true)
+		} else {
+			r.Add("E2.filename-before-byte", c.name, "key order", p.Pos(c.pos), Violated, "the byte offset is compared before the file name: offsets of different files decide the order, so inserting text into one file reorders items of another", true)
+		}
+	}
 	r.Counts["E2.position-keys"] = n
 	r.ExpectMin("E2.position-keys", n, 4)
 	r.Clauses = append(r.Clauses, "E2 every comparator that orders by source position uses the byte offset (or line and column together)")
